@@ -52,6 +52,7 @@ type G struct {
 	where   string
 	steps   int
 	prio    int
+	woke    bool
 }
 
 func (g *G) String() string { return fmt.Sprintf("g%d(%s)", g.ID, g.Site) }
@@ -107,6 +108,9 @@ type Sched struct {
 	NPoolHit  int
 	NMapPerm  int
 	SiteSet   map[string]int
+	// OnRelease is called by the root just before it releases g; woke tells
+	// that g returns from a native blocking operation (timer, channel).
+	OnRelease func(g *G, woke bool)
 }
 
 // S is the active scheduler; nil outside a run (shims then behave natively).
@@ -289,6 +293,7 @@ func Resume(g *G) {
 	if s.dead {
 		return
 	}
+	g.woke = true
 	s.park(g, g.where, nil)
 }
 
@@ -510,6 +515,10 @@ func (s *Sched) Run(done func() bool) Result {
 		s.SiteSet[g.where]++
 		s.Logf("step g%d %s", g.ID, g.where)
 		g.wait = nil
+		if s.OnRelease != nil {
+			s.OnRelease(g, g.woke)
+		}
+		g.woke = false
 		s.cur = g
 		atomic.StoreInt32(&g.state, gRunning)
 		raceDisable()
